@@ -1118,6 +1118,8 @@ class ConnectionBase(object):
         """
 
         pkt_type = PacketType.UNKNOWN
+        # MAX_PAYLOAD_SIZE already excludes the overhead of a single message
+        max_size = Packet.MAX_PAYLOAD_SIZE + Packet.MESSAGE_OVERHEAD_1
         msgs = [] # messages (seq, typ, msg) to include in this packet
         current_msg_length = 0 # sum of length of messages in msgs, excluding overhead
 
@@ -1137,7 +1139,7 @@ class ConnectionBase(object):
                 # calculate the size of the packet so far + this message
                 size = len(msg.payload) + Packet.overhead(1+len(msgs)) + current_msg_length
                 # if the message fits add it to the packet
-                if size <= Packet.MAX_PAYLOAD_SIZE:
+                if size <= max_size:
                     del self.pending_retry_msg[msgseq]
                     msgs.append(msg)
                     current_msg_length += len(msg.payload)
@@ -1154,7 +1156,7 @@ class ConnectionBase(object):
             # calculate the size of the packet so far + this message
             size = len(pending.payload) + Packet.overhead(1+len(msgs)) + current_msg_length
             # if the message fits add it to the packet
-            if size <= Packet.MAX_PAYLOAD_SIZE:
+            if size <= max_size:
                 self.outgoing_messages.pop(idx)
                 msgs.append(pending)
                 current_msg_length += len(pending.payload)
